@@ -61,6 +61,7 @@ type EntrySpec struct {
 	Tier       string   `json:"tier"` // "", "quick", "thorough": run only in that tier ("" = both)
 	Solver     string   `json:"solver"`
 	MapOrder   bool     `json:"map_order"`
+	FoldRegex  bool     `json:"fold_regex"` // see sym.Config.FoldRegex
 	TimeoutMS  int      `json:"timeout_ms"`
 	MaxSymAlloc int     `json:"max_sym_alloc"`
 	NoReplay   bool     `json:"no_replay"`
@@ -586,7 +587,7 @@ func checkSpec(hdir, prop, tier, only string, verbose bool, seed int64, acc *acc
 		}
 		cfg := sym.Config{Unwind: e.Unwind, MaxPaths: e.MaxPaths, MaxPreempt: e.MaxPreempt, SchedFirst: e.SchedFirst, Solver: spec.Solver, InitPkgs: spec.Init,
 			Skip: set(spec.Skip), Havoc: set(spec.Havoc), Models: spec.Models, Seed: seed, Tier: tierN, MapOrderChoice: e.MapOrder,
-			TimeoutMS: e.TimeoutMS, MaxSymAlloc: e.MaxSymAlloc, WitnessModels: true, Workers: 12, InstrPkg: spec.Package}
+			TimeoutMS: e.TimeoutMS, MaxSymAlloc: e.MaxSymAlloc, FoldRegex: e.FoldRegex, WitnessModels: true, Workers: 12, InstrPkg: spec.Package}
 		if e.Solver != "" {
 			cfg.Solver = e.Solver
 		}
